@@ -13,13 +13,18 @@ def gen(rng, tier):
         G, fam = common.random_connected_graph(rng, 1, 6 if tier == "quick" else 8, large_ok=True)
         n = G["n"]; D = common.random_divisor(rng, G)
         if rng.random() < 0.15: G, D = common.thin_cut_game(rng); n = G["n"]; fam = "thincut"
-        if rng.random() < 0.18: G = common.midsize_multigraph(rng); n = G["n"]; D = common.random_divisor(rng, G); fam = "midsize"      # dense clusters joined by a thin cut, few chips: edge connectivity below the minimum valence
+      # dense clusters joined by a thin cut, few chips: edge connectivity below the minimum valence
         if rng.random() < 0.08 and G["edges"]: G, D = common.scale_game(rng, G, D); fam = fam + "*2^k"
         sigma = [rng.randint(-3, 3) if rng.random() < 0.7 else rng.randint(-40, 40) for _ in range(n)]
         c = {"G": G, "D": D, "sigma": sigma, "q": rng.randrange(n), "fam": fam, "s": rng.randrange(1 << 30)}
         if n >= 2 and rng.random() < 0.3:      # history on ONE divisor object: reduced, moved (lend / borrow / transfer), reduced again
             c["moves"] = [[rng.choice([0, 1, 2]), rng.randrange(n), rng.randrange(n), rng.randint(1, 4)] for _ in range(rng.randint(1, 3))]
         cases.append(c)
+    # further families are APPENDED (own generator state), so that extending them never shifts the random stream of the cases above
+    r2 = random.Random(rng.randrange(1 << 30))
+    for _ in range(60 if tier == "quick" else 600):
+        G = common.midsize_multigraph(r2) if r2.random() < 0.7 else common.cut_transfer_game(r2)[0]; n = G["n"]
+        cases.append({"G": G, "D": common.random_divisor(r2, G), "sigma": [r2.randint(-3, 3) for _ in range(n)], "q": r2.randrange(n), "fam": "midsize", "s": r2.randrange(1 << 30)})
     if tier == "thorough":
         import itertools
         for n in (2, 3):
